@@ -100,7 +100,7 @@ class FuncFlow:
         return None
 
     # ------------------------------------------------------------ roots
-    def roots(self, expr, at_node=None, _seen=None, depth=0):
+    def roots(self, expr, at_node=None, _seen=None, depth=0, stop_names=()):
         """set of root descriptors the value of expr depends on:
            ('param', name) ('attr', 'self.a.b') ('call', 'dotted name') ('const', repr)
            ('global', name) ('iter', ...)"""
@@ -108,6 +108,7 @@ class FuncFlow:
             at_node = self.node_id_of(expr)
         if _seen is None:
             _seen = set()
+        self._stop = set(stop_names)
         out = set()
         bound = set()
         for n in ast.walk(expr):
@@ -125,6 +126,9 @@ class FuncFlow:
             return
         if isinstance(e, ast.Name):
             if e.id in bound:
+                return
+            if e.id in getattr(self, '_stop', ()):
+                out.add(('owner', e.id))
                 return
             if e.id not in self.rd.names:
                 out.add(('global', e.id))
